@@ -147,15 +147,22 @@ def step (st : MState) (line : String) : MState × String :=
             | _ => (st.cap, false)
           let hsTxt := s!" cap={if c2 then 1 else 0} hs={showHandshakes cap2.completed}"
           let st := { st with cap := { cap2 with completed := [] } }
+          -- what the parsers made of the frame
+          let parsedTxt : String := match parsed with
+            | .data fr => match fr.inner.findEapol with
+              | some e => s!" e={e.key.length}/{e.serialize.length}/{(fnv e.serialize).toNat}"
+              | none => ""
+            | .beacon a3 ssid => s!" b={toHex a3}/" ++ (match ssid with | some s => "s" ++ toHex s | none => "none")
+            | .notData => ""
           match wpa2Decrypt innerParser aes prf micf st.wpa parsed with
           | .ok (w, r, p', ev) =>
             let st' := { st with wpa := w }
-            let tail := hsTxt ++ s!" ev={showEvents ev} nk={w.keys.length} lk={showLearned w.keys ev}"
+            let tail := hsTxt ++ s!" ev={showEvents ev} nk={w.keys.length} lk={showLearned w.keys ev}" ++ parsedTxt
             match p' with
             | .data fr' => (st', showFrame (if r then "1" else "0") fr' ++ tail)
             | _ => (st', s!"r={if r then 1 else 0} nodata" ++ tail)
           | .throw e =>
-            let tail := hsTxt ++ s!" ev=- nk={st.wpa.keys.length} lk=-"
+            let tail := hsTxt ++ s!" ev=- nk={st.wpa.keys.length} lk=-" ++ parsedTxt
             match parsed with
             | .data fr => (st, showFrame ("throw:" ++ e.name) fr ++ tail)
             | _ => (st, s!"r=throw:{e.name} nodata" ++ tail)
